@@ -483,7 +483,7 @@ def table_cmp(ck, F):
                     calls.append(subs)
                     return ("recursive", subs)
                 return UNKNOWN
-            ps = Interp(b, F, call_hook=hook, max_paths=64).run({"left": ("variantref", a), "right": ("variantref", c)})
+            ps = Interp(b, F, call_hook=hook, max_paths=64).run({(b.local_name(1) or "_1"): ("variantref", a), (b.local_name(2) or "_2"): ("variantref", c)})
             rets = set()
             for p in ps:
                 r = p.ret
